@@ -270,7 +270,16 @@ def run(ctx):
                    (lambda: schema.dict({"id": schema.int, "n": schema.str, ...: ...}),
                     lambda: schema.dict({"id": schema.int, ...: ...}) + schema.dict({"n": schema.str})),
                    (lambda: schema.dict({optional("o"): schema.int, ...: ..., "r": schema.none}),
-                    lambda: schema.dict({"r": schema.none, optional("o"): schema.int, ...: ...}))]
+                    lambda: schema.dict({"r": schema.none, optional("o"): schema.int, ...: ...})),
+                   # float parameters that differ by less than the validator's tolerance (or by one ulp): whatever == answers,
+                   # schemas that compare equal must agree on the values between and around them
+                   (lambda: schema.float(1.0), lambda: schema.float(1.0 + 8e-10)), (lambda: schema.float(1e9), lambda: schema.float(1e9 + 0.5)),
+                   (lambda: schema.float(0.1 + 0.2), lambda: schema.float(0.3)), (lambda: schema.float(-1.0), lambda: schema.float(-1.0 - 8e-10)),
+                   (lambda: schema.float.min(1.0), lambda: schema.float.min(1.0 + 1e-12)),
+                   (lambda: schema.float.max(2.0), lambda: schema.float.max(2.0 - 4e-16)),
+                   (lambda: schema.float.min(0.3), lambda: schema.float.min(0.1 + 0.2)),
+                   (lambda: schema.float(1.0).precision(2), lambda: schema.float(1.0 + 8e-10).precision(2)),
+                   (lambda: schema.float.min(1.0).max(3.0), lambda: schema.float.min(1.0 + 8e-10).max(3.0 - 8e-10))]
     twins = []
     for ma, mb in twin_makers:
         try:
@@ -281,6 +290,8 @@ def run(ctx):
              lambda t: schema.any(t, schema.str), lambda t: schema.dict({"a": schema.list(schema.any(t, schema.none))})]
     inner_probes = [_dt.datetime(2024, 2, 29, 12, 0, tzinfo=_dt.timezone.utc), _dt.datetime(2024, 2, 29, 15, 0, tzinfo=_dt.timezone(_dt.timedelta(hours=3))),
                     _dt.datetime(2024, 2, 29, 12, 0), _dt.date(2024, 2, 29), _dt.datetime(2024, 2, 29, 0, 0), -0.0, "\u00e9", "e\u0301",
+                    1.0 - 5e-10, 1.0 + 4e-10, 1.0 + 1.3e-9, 1.0 + 1.7e-9, 1.0 + 5e-13, 1.0 + 1e-12, 2.0 - 2e-16, 2.0 - 4e-16, 0.3, 0.1 + 0.2, 1e9 + 0.25, 1e9 - 0.6,
+                    1e9 + 1.2, -1.0 + 5e-10, -1.0 - 1.5e-9, 3.0, 3.0 - 4e-10, 1.004, 1.0049999,
                     1, True, 0, False, 1.0, 0.0, 2, "1", None, [], [1], [True], "", {}, {"id": 1}, {"id": "x"}, {"id": 1, "n": 2},
                     {"a": 1, "b": "s"}, {"a": "s", "b": 1}, {"r": None}, {"r": 1, "o": 1}, {"o": "x", "r": None}, {"id": 1, "n": "s", "z": 0}]
     for a0, b0 in twins:
@@ -339,8 +350,12 @@ def run(ctx):
             if r1 is True and type(a) is not type(b):
                 ctx.violation("schemas of different types compare equal", a=repr(a), b=repr(b), py_a=a, py_b=b)
             corr(a, b)
-    fn = schema.float(nan)
-    if eq(fn, fn) is not True:
+    try:
+        fn = schema.float(nan)
+    except Exception:  # noqa: BLE001  (the tree under test refuses the declaration: nothing to compare)
+        fn = None
+        ctx.count("nan_schema_not_declarable")
+    if fn is not None and eq(fn, fn) is not True:
         ctx.violation("a schema is not equal to itself", schema=repr(fn), py_a=fn)
     # transitivity on random triples from the pool + clones
     for _ in range(ctx.n(300, 3000)):
